@@ -13,6 +13,7 @@ CONSTANTS
   MaxLoss = 4
   MaxDup = 4
   MaxPopCalls = 30
+  MaxMidFlush = 2
   Algo = "none"
   Impl = "asis"
   Sampling = TRUE
